@@ -214,11 +214,11 @@ fn binop_driver(t: &Tier, m: &mut Matrix, sink: &mut Sink, ops: &[&'static str],
             v
         };
         for (bi, (lo, hi)) in bands.iter().copied().enumerate() {
-            let reps = if hi > 256 { t.q(10, 60) } else { t.q(40, 400) };
+            let reps = if hi > 256 { t.q(24, 96) } else { t.q(48, 400) };
             for i in 0..reps {
                 let op = ops[i % ops.len()];
                 let is_div = matches!(op, "div" | "rem" | "div_rem");
-                if is_div && hi > 256 && t.quick && i % 2 == 1 {
+                if is_div && hi > 256 && t.quick && i % 2 == 1 && i % 4 != 3 {
                     continue;
                 }
                 let n = if i % 3 == 0 { hi } else { lo + rng.below(hi - lo + 1) };
@@ -229,7 +229,18 @@ fn binop_driver(t: &Tier, m: &mut Matrix, sink: &mut Sink, ops: &[&'static str],
                     // sparse: powers of two and small multiples against 2^(k*w) + 1 (equal zero words in between)
                     2 => (sparse(n, &[n - 1, 2 * w, w + 1][..1 + i % 3]), sparse((2 * w + 1).min(n), &[0, w, 2 * w][..1 + (i / 4) % 3])),
                     // a saturated middle word in the operand
-                    _ => (random_bits(&mut rng, n), { let mut y = zeros((3 * w).min(n)); for k in w..(2 * w).min(y.len()) { y[k] = 1; } y[0] = 1; if y.len() > 2 * w { y[2 * w] = (i % 2) as u8; } y }),
+                    _ => (random_bits_uniform(&mut rng, if i % 8 == 3 { hi } else { n }), {
+                        if (i / 4) % 2 == 0 {
+                            // two saturated low words: 2^(2w) - 1 or 2^(2w-1) - 1
+                            ones(2 * w - (i / 8) % 2)
+                        } else {
+                            let mut y = zeros((3 * w).min(n));
+                            for k in w..(2 * w).min(y.len()) { y[k] = 1; }
+                            y[0] = 1;
+                            if y.len() > 2 * w { y[2 * w] = (i % 2) as u8; }
+                            y
+                        }
+                    }),
                 };
                 let _ = bi;
                 let forms: &[&str] = if op == "div_rem" { &[""] } else { &FORMS6 };
